@@ -14,6 +14,7 @@ from typing import Set
 from rules import _converter as cv
 from sa.cfg import CFG
 from sa.model import full, AnalysisError, Repo, calls_in, dotted, norm, own_nodes
+from sa.match import Locals, match
 from sa.report import Report
 
 
@@ -26,11 +27,13 @@ def run(repo: Repo, rep: Report, tier: str) -> None:
     sfd = conv.functions.get("structure_from_dict")
     if sfd is None:
         raise AnalysisError("anchor vanished: structure_from_dict")
-    tries = [n for n in own_nodes(sfd.node) if isinstance(n, ast.Try) and "converter.structure(data, cls)" in full(n)]
+    SL = Locals(sfd.node)
+    tries = [n for n in own_nodes(sfd.node) if isinstance(n, ast.Try) and any(
+        isinstance(c.func, ast.Attribute) and c.func.attr == "structure" and len(c.args) == 2 for st in n.body for c in calls_in(st))]
     rep.require(len(tries) == 1, f"R16.1: expected one try around converter.structure in structure_from_dict, found {len(tries)}")
     for tr in tries:
         catches_all = any(h.type is None or norm(h.type) in ("Exception", "BaseException") for h in tr.handlers)
-        all_value = all(any(isinstance(s, ast.Raise) and s.exc is not None and norm(s.exc).startswith("ValueError(") and s.cause is not None for s in h.body) for h in tr.handlers)
+        all_value = all(any(isinstance(s, ast.Raise) and s.exc is not None and norm(SL.inline(s.exc)).startswith("ValueError(") and s.cause is not None for s in h.body) for h in tr.handlers)
         names_field = any("_extract_errors" in full(h) for h in tr.handlers)
         sub = f"{conv.relpath}:structure_from_dict error conversion"
         if catches_all and all_value and names_field:
@@ -55,9 +58,21 @@ def run(repo: Repo, rep: Report, tier: str) -> None:
         raise AnalysisError("anchor vanished: DataclassSerializer helpers")
     cfg = CFG(swt.node)
     dom = cfg.dominators()
+    WL = Locals(swt.node)
+    if len(WL.params) < 2:
+        raise AnalysisError("anchor vanished: _serialize_with_tracking(obj, visited) signature")
+    p_obj, p_vis = WL.params[0], WL.params[1]
+
+    def is_vis(e: ast.AST) -> bool:
+        return isinstance(e, ast.Name) and WL.root(e.id) == p_vis
+
+    def vis_call(n: ast.AST, meths: Tuple[str, ...]) -> bool:
+        return any(isinstance(c.func, ast.Attribute) and c.func.attr in meths and is_vis(c.func.value) for c in calls_in(n))
+
     # visited check dominates every descent
-    vis_tests = [n for n in cfg.nodes if n.kind == "test" and "in visited" in norm(n.ast)]
-    rep.require(bool(vis_tests), "R16.2: no `in visited` test in _serialize_with_tracking (anchor)")
+    vis_tests = [n for n in cfg.nodes if n.kind == "test" and any(
+        isinstance(x, ast.Compare) and len(x.ops) == 1 and isinstance(x.ops[0], ast.In) and is_vis(x.comparators[0]) for x in ast.walk(n.ast))]
+    rep.require(bool(vis_tests), "R16.2: no `<id> in <visited>` test in _serialize_with_tracking (anchor)")
     descents = [n for n in cfg.nodes if n.kind == "stmt" and n.ast is not None and not n.copy and any(
         (dotted(c.func) or "").endswith(("_serialize_with_tracking", "_ensure_all_dicts", "unstructure_to_dict")) for c in calls_in(n.ast))]
     for dn in descents:
@@ -65,8 +80,9 @@ def run(repo: Repo, rep: Report, tier: str) -> None:
         guarded = any(t.id in dom[dn.id] for t in vis_tests)
         delegated = any(c.endswith("unstructure_to_dict") for c in calls)
         # is the object registered in visited around the call? (an enclosing try whose preceding statement is visited.add)
-        added = any(isinstance(x.ast, ast.Expr) and "visited.add(obj_id)" in norm(x.ast) and x.id in dom[dn.id] for x in cfg.nodes if x.ast is not None)
-        sub = f"{utils.relpath}:DataclassSerializer._serialize_with_tracking `{norm(dn.ast)[:60]}`"
+        added = any(isinstance(x.ast, ast.Expr) and vis_call(x.ast, ("add",)) and x.id in dom[dn.id] for x in cfg.nodes if x.ast is not None)
+        what = "delegation to cattrs" if delegated else "recursive descent"
+        sub = f"{utils.relpath}:DataclassSerializer._serialize_with_tracking {what} ({'tracked' if added else 'untracked'} object)"
         if delegated:
             rep.violation("R16.2", sub, f"{swt.fq}|unguarded-delegation|{'dataclass' if added else 'other'}",
                           "the whole subtree is handed to cattrs' unstructure, which has no cycle guard: a reference cycle that runs through an `Any` field "
@@ -76,31 +92,51 @@ def run(repo: Repo, rep: Report, tier: str) -> None:
         elif guarded:
             rep.ok("R16.2", sub, "post-processing under the visited check", swt.loc(dn.ast))
         else:
-            rep.violation("R16.2", sub, f"{swt.fq}|unguarded-descent|{norm(dn.ast)[:40]}", "a recursive descent is not dominated by the visited check", swt.loc(dn.ast))
+            rep.violation("R16.2", sub, f"{swt.fq}|unguarded-descent|{what}", "a recursive descent is not dominated by the visited check", swt.loc(dn.ast))
     # visited.add is always undone (try/finally)
-    adds = [n for n in own_nodes(swt.node) if isinstance(n, ast.Expr) and "visited.add(obj_id)" in norm(n)]
-    fin = [t for t in own_nodes(swt.node) if isinstance(t, ast.Try) and t.finalbody and "visited.remove(obj_id)" in full(t.finalbody[0])]
+    adds = [n for n in own_nodes(swt.node) if isinstance(n, ast.Expr) and vis_call(n, ("add",))]
+    fin = [t for t in own_nodes(swt.node) if isinstance(t, ast.Try) and t.finalbody and any(vis_call(f, ("remove", "discard")) for f in t.finalbody)]
     if adds and len(fin) == len(adds):
         rep.ok("R16.2", f"{utils.relpath}:_serialize_with_tracking visited bookkeeping", f"{len(adds)} visited.add each undone in a finally", swt.loc())
+    elif not adds:
+        raise AnalysisError("anchor vanished: no <visited>.add(...) statement in _serialize_with_tracking")
     else:
         rep.violation("R16.2", f"{utils.relpath}:_serialize_with_tracking visited bookkeeping", f"{swt.fq}|visited-balance|{len(adds)}|{len(fin)}",
                       "visited.add is not always undone in a finally: after an error, or for shared (non-cyclic) sub-objects, values are dropped as 'cycles'", swt.loc())
     # R16.3: every return that can carry a container strips None
-    for r in [n for n in own_nodes(swt.node) if isinstance(n, ast.Return) and n.value is not None]:
+    for i, r in enumerate([n for n in own_nodes(swt.node) if isinstance(n, ast.Return) and n.value is not None]):
         v = norm(r.value)
-        sub = f"{utils.relpath}:_serialize_with_tracking `return {v[:50]}`"
-        if v in ("obj", "None") or "b64encode" in v:
-            rep.ok("R16.3", sub, "primitive / cycle marker / encoded bytes", swt.loc(r))
-        elif "_remove_none_values" in v or "_serialize_with_tracking(item, visited)" in v:
-            rep.ok("R16.3", sub, "None-valued keys are stripped (or items are serialised recursively)", swt.loc(r))
+        vi = WL.inline(r.value, stop=tuple(WL.params))
+        sub = f"{utils.relpath}:_serialize_with_tracking return #{i + 1}"
+        recursive_items = any(isinstance(c.func, ast.Attribute) and c.func.attr == "_serialize_with_tracking" and len(c.args) == 2 and is_vis(c.args[1])
+                              for c in ast.walk(vi) if isinstance(c, ast.Call))
+        if (isinstance(r.value, ast.Name) and WL.root(r.value.id) == p_obj) or (isinstance(r.value, ast.Constant) and r.value.value is None) or "b64encode" in norm(vi):
+            rep.ok("R16.3", sub, f"`return {v[:50]}`: primitive / cycle marker / encoded bytes", swt.loc(r))
+        elif "_remove_none_values" in norm(vi) or recursive_items:
+            rep.ok("R16.3", sub, f"`return {v[:50]}`: None-valued keys are stripped (or items are serialised recursively)", swt.loc(r))
         else:
-            rep.violation("R16.3", sub, f"{swt.fq}|return-unstripped|{v[:50]}", "a container can be returned without None stripping", swt.loc(r))
+            rep.violation("R16.3", sub, f"{swt.fq}|return-unstripped|{i + 1}", f"`return {v[:50]}`: a container can be returned without None stripping", swt.loc(r))
     # R16.4 post-processor recursion
-    for branch, test_txt in (("list", "isinstance(obj, list)"), ("dict", "isinstance(obj, dict)")):
-        ifs = [n for n in own_nodes(ead.node) if isinstance(n, ast.If) and norm(n.test) == test_txt]
+    EL = Locals(ead.node)
+    if len(EL.params) < 2:
+        raise AnalysisError("anchor vanished: _ensure_all_dicts(obj, visited) signature")
+    e_obj, e_vis = EL.params[0], EL.params[1]
+
+    def tests_type(t: ast.AST, tyname: str) -> bool:
+        for x in ast.walk(t):
+            m = match(f"isinstance(VAR_o, {tyname})", x)
+            if m is not None and EL.root(m["VAR_o"]) == e_obj:
+                return True
+            if isinstance(x, ast.Call) and dotted(x.func) == "isinstance" and len(x.args) == 2 and isinstance(x.args[0], ast.Name) and EL.root(x.args[0].id) == e_obj \
+                    and isinstance(x.args[1], ast.Tuple) and any(isinstance(e, ast.Name) and e.id == tyname for e in x.args[1].elts):
+                return True
+        return False
+
+    for branch in ("list", "dict"):
+        ifs = [n for n in own_nodes(ead.node) if isinstance(n, ast.If) and tests_type(n.test, branch)]
         sub = f"{utils.relpath}:_ensure_all_dicts {branch} branch"
         if len(ifs) != 1:
-            rep.violation("R16.4", sub, f"{ead.fq}|branch-missing|{branch}", f"no `{test_txt}` branch", ead.loc())
+            rep.violation("R16.4", sub, f"{ead.fq}|branch-missing|{branch}", f"no `isinstance(<obj>, {branch})` branch", ead.loc())
             continue
         rec = [c for c in calls_in(ifs[0]) if (dotted(c.func) or "").endswith("._ensure_all_dicts")]
         other = [c for c in calls_in(ifs[0]) if (dotted(c.func) or "").endswith("._serialize_with_tracking")]
@@ -110,8 +146,10 @@ def run(repo: Repo, rep: Report, tier: str) -> None:
             rep.violation("R16.4", sub, f"{ead.fq}|{branch}-recursion|rec={len(rec)}|other={len(other)}",
                           f"the {branch} branch does not recurse with _ensure_all_dicts: nested plain dicts bypass the cycle guard / post-processing and "
                           "un-serialisable objects can remain in the output", ead.loc(ifs[0]))
-    dcb = [n for n in own_nodes(ead.node) if isinstance(n, ast.If) and "is_dataclass(obj)" in norm(n.test)]
-    if dcb and any((dotted(c.func) or "").endswith("._serialize_with_tracking") and any(isinstance(a, ast.Name) and a.id == "visited" for a in c.args) for c in calls_in(dcb[0])):
+    dcb = [n for n in own_nodes(ead.node) if isinstance(n, ast.If) and any(
+        isinstance(c, ast.Call) and (dotted(c.func) or "").endswith("is_dataclass") and c.args and isinstance(c.args[0], ast.Name) and EL.root(c.args[0].id) == e_obj
+        for c in ast.walk(n.test))]
+    if dcb and any((dotted(c.func) or "").endswith("._serialize_with_tracking") and any(isinstance(a, ast.Name) and EL.root(a.id) == e_vis for a in c.args) for c in calls_in(dcb[0])):
         rep.ok("R16.4", f"{utils.relpath}:_ensure_all_dicts dataclass branch", "a leftover dataclass instance re-enters the guarded serialiser with the same visited set", ead.loc(dcb[0]))
     else:
         rep.violation("R16.4", f"{utils.relpath}:_ensure_all_dicts dataclass branch", f"{ead.fq}|dataclass-branch", "leftover dataclass instances are not re-serialised with the shared visited set", ead.loc())
